@@ -96,15 +96,16 @@ def check_state(ctx, fam, est, expect_len, desc, where, positions_in_order=True,
 def prepare(ctx):
     """Translator tie (see gen_tie.py): the statements of BaseART.step_fit are regenerated from the source and the
     theorems about the generated definition are re-checked"""
-    from .gen_tie import gen_prepare
-    gen_prepare(ctx, ['Control.step_fit_refines', 'Control.step_fit_counts', 'Control.partial_fit_loop', 'Control.partial_fit_spec',
+    from .gen_tie import gen_prepare, extra_theorems
+    from .. import gftrans
+    gen_prepare(ctx, extra_theorems("gftrans") + ['Control.step_fit_refines', 'Control.step_fit_counts', 'Control.partial_fit_loop', 'Control.partial_fit_spec',
                       'Control.fit_spec', 'Control.fitEpochs_one', 'Control.scalar_gcontract', 'Control.scalar_fit',
                       'Control.scalar_partial_fit',
                       'Whole.dual_partial_fit_spec', 'Whole.dual_fit_spec', 'Whole.dual_partial_fit_map_total', 'Whole.dual_fit_map_total',
                       'Whole.topo_fit_spec', 'Whole.topo_partial_fit_spec', 'Whole.topo_fit_shape', 'Whole.topo_fit_labels'],
                 "BaseART.step_fit / partial_fit / fit (translated statements): counters, labels vector, one epoch = the model fit; the same "
                 "inherited loops re-translated for DualVigilanceART and TopoART receivers (wtrans -> ArtGen/Whole.lean): label counts, map "
-                "totality, labels valid after pruning")
+                "totality, labels valid after pruning; " + gftrans.COVERS)
 
 
 def run(ctx):
